@@ -763,7 +763,7 @@ impl Scenario for MigScenario {
             ctx.fault(&format!("rng_stream:{kind:?}"));
         }
         // ---- the migration
-        let use_arb = self.prop == "C18" && ch.chance("arb_state", 1, 3);
+        let use_arb = if self.prop == "C18" { ch.chance("arb_state", 1, 3) } else { ch.chance("arb_state", 1, 6) };
         let (mut state, commit_height, _activation, interval) = if use_arb {
             let mut seed = [0u8; 32];
             seed.copy_from_slice(&ch.bytes("arb.seed", 32));
@@ -1424,7 +1424,7 @@ impl Scenario for MigScenario {
                     return self.v(ctx, false, Violation::new("at_most_one_nonterminal_migration", format!("{n} non-terminal migrations stored for one account")));
                 }
             }
-            if self.owns17() || ev % 8 == 0 {
+            if (self.owns17() && !use_arb) || (!self.owns17() && ev % 8 == 0) {
                 self.check_wakeups(ctx, &state, world.tip, &mut rng)?;
             }
         }
